@@ -80,4 +80,39 @@ theorem generated_byteIsAny_eq (b : UInt8) (l : Bytes) :
     cases h : b == a <;> simp [ih]
 
 
+/-- the body of `(*Telnet).Read` as the translator renders it from the current source: a non-empty
+`initialBuf` is returned WHOLE — whatever the read size `n`, even a negative one — with a `nil`
+error, and the buffer is cleared: exactly `Conn.readN .whole` (so `initial_buffer_conservation`
+speaks about the code). With an empty buffer the call returns the first `sockN` bytes of its
+scratch buffer with the socket's error and leaves the buffer empty (`sockN`, `sockErr` = results of
+`t.c.Read(b)`, `0 ≤ sockN ≤ n` by the `io.Reader` contract; the bytes themselves are the socket's and
+are not modelled). -/
+theorem generated_telnetRead_eq (sockN : Int) (sockErr : Go.Error) (data : Bytes) (n : Int) :
+    (data ≠ [] →
+      Gen.Bodies.Telnet.telnetRead sockN sockErr data n = some (data, none, []) ∧
+      ∀ sock, Conn.readN .whole n.toNat ⟨data, sock⟩ = (some data, ⟨[], sock⟩)) ∧
+    (data = [] → 0 ≤ sockN → sockN ≤ n →
+      ∃ b, Gen.Bodies.Telnet.telnetRead sockN sockErr data n = some (b, sockErr, []) ∧
+        (b.length : Int) = sockN) := by
+  constructor
+  · intro h
+    have hlen : data.length > 0 := by
+      cases data with
+      | nil => exact absurd rfl h
+      | cons x xs => simp
+    have hl : (Go.len data > 0) := by simp only [Go.len]; omega
+    constructor
+    · simp [Gen.Bodies.Telnet.telnetRead, hl]
+    · intro sock; simp [Conn.readN, hlen]
+  · intro h h0 hn
+    subst h
+    have hn0 : 0 ≤ n := by omega
+    refine ⟨Go.slice (List.replicate n.toNat (0 : UInt8)) 0 sockN, ?_, ?_⟩
+    · have hmax : max n 0 = n := by omega
+      have hok' : Go.sliceOK n 0 sockN = true := by
+        simp only [Go.sliceOK, Bool.and_eq_true, decide_eq_true_eq]; omega
+      simp [Gen.Bodies.Telnet.telnetRead, Go.len, hn0, hmax, hok']
+    · simp only [Go.slice, List.length_drop, List.length_take, List.length_replicate]
+      omega
+
 end Scrapli.Telnet.Body.C15
